@@ -6,6 +6,7 @@ CONSTANTS
  MaxSyncs = 3
  MaxPatches = 0
  MaxUpdaters = 2
+ InitSnapshot = TRUE
 INVARIANT SnapshotWithinLog
 INVARIANT UserDocIsSnapshot
 INVARIANT OneUpdaterAtATime
